@@ -13,6 +13,9 @@ HERE = os.path.dirname(os.path.abspath(__file__))
 VERIF = os.path.dirname(HERE)
 LEAN = os.path.join(VERIF, "lean")
 sys.path.insert(0, HERE)
+# the checks speak about bigtree's DEFAULT configuration: whatever the caller's environment says about the optional
+# assertion checks is put aside before bigtree is imported (C20 starts its own interpreters with the variable set / unset)
+os.environ.pop("BIGTREE_CONF_ASSERTIONS", None)
 import core  # noqa: E402  (sets sys.path for bigtree)
 
 STD_AXIOMS = {"propext", "Classical.choice", "Quot.sound"}
